@@ -259,6 +259,7 @@ def obligations(tier):
     from harness import C10
 
     for tname, kind, ep in (('address', 'tz1', None), ('address', 'KT1', 'a'), ('address', 'sr1', None), ('address', 'tz3', 'default'), ('key_hash', 'tz2', None),
+                            ('key_hash', 'tz1', None), ('key_hash', 'tz4', None), ('key', 'p2pk', None),
                             ('key', 'edpk', None), ('key', 'sppk', None), ('signature', 'sig', None), ('chain_id', 'Net', None)):
         for mode in MODES:
             obs.append(Ob(f'{mode}/{tname}/{kind}/{ep or "-"}', 'bvx', C10.sym_roundtrip, C10.conc_roundtrip,
